@@ -508,12 +508,123 @@ func C04(run *mon.Run) {
 		wg.Wait()
 		run.Require(run.Counter("list-sizes.sizes") == int64(N), "list-size sweep incomplete")
 	}
+	// a special element (identity, a copy of an earlier element, the opposite of its neighbour) at every
+	// position of a list longer than any internal chunk
+	c04SpecialAtEveryPosition(run, cv)
 	// algebraic corners: identity operands at each position, equal operands (doubling), opposite
 	// operands (cancellation), and removal whose intermediate sum equals +-the minuend
 	c04Corners(run, r, cv)
 	// error classes
 	c04Errors(run, r)
 	run.Require(run.Counter("zero-sum") >= 10, "fewer than 10 zero-sum multisets")
+}
+
+// c04SpecialAtEveryPosition: lists of M signatures / public keys in which exactly one position p holds a
+// special element - the identity, a copy of the element 1, 64 or 128 places earlier, or the opposite of
+// the previous element - for every p: the sum is the reference sum. (Buffers, chunks or accumulators that
+// are reused inside a long list treat such elements differently from the first chunk.)
+func c04SpecialAtEveryPosition(run *mon.Run, cv ref.Conv) {
+	M := run.Pick(270, 530)
+	rr := run.Rand("special-positions")
+	hh := crypto.NewExpandMsgXOFKMAC128("c04-special")
+	msg := []byte("special positions")
+	H, err := hashPoint(msg, hh, "kmac:c04-special")
+	if err != nil {
+		run.Violate("C04:hash-point", err.Error(), nil)
+		return
+	}
+	ks := make([]*big.Int, M)
+	sigPts := make([]ref.G1, M)
+	pkPts := make([]ref.G2, M)
+	sigs := make([]crypto.Signature, M)
+	pks := make([]crypto.PublicKey, M)
+	var wg sync.WaitGroup
+	sem := make(chan struct{}, 16)
+	for i := 0; i < M; i++ {
+		ks[i] = randScalar(rr)
+	}
+	for i := 0; i < M; i++ {
+		i := i
+		wg.Add(1)
+		sem <- struct{}{}
+		go func() {
+			defer wg.Done()
+			defer func() { <-sem }()
+			sigPts[i] = ref.E1.Mul(H, ks[i])
+			pkPts[i] = ref.E2.Mul(ref.G2Gen, ks[i])
+			sigs[i] = ref.EncodeG1(sigPts[i])
+			pks[i] = skFromInt(ks[i]).PublicKey()
+		}()
+	}
+	wg.Wait()
+	totalSig, totalPk := ref.E1.Sum(sigPts...), ref.E2.Sum(pkPts...)
+	idPk := crypto.IdentityBLSPublicKey()
+	idSig := ref.EncodeG1(ref.E1.Infinity())
+	kinds := []string{"identity", "copy-of-previous", "copy-of-64-earlier", "copy-of-128-earlier", "opposite-of-previous"}
+	for p := 0; p < M; p++ {
+		p := p
+		wg.Add(1)
+		sem <- struct{}{}
+		go func() {
+			defer wg.Done()
+			defer func() { <-sem }()
+			defer run.Protect("c04 worker")
+			for ki, kind := range kinds {
+				if run.Quick() && (p+ki)%2 == 1 && p != 128 && p != 129 && p != 256 && p != 64 {
+					continue
+				}
+				src := -1
+				switch kind {
+				case "copy-of-previous", "opposite-of-previous":
+					src = p - 1
+				case "copy-of-64-earlier":
+					src = p - 64
+				case "copy-of-128-earlier":
+					src = p - 128
+				}
+				if kind != "identity" && src < 0 {
+					continue
+				}
+				sl := append([]crypto.Signature{}, sigs...)
+				kl := append([]crypto.PublicKey{}, pks...)
+				wantSig, wantPk := ref.E1.Sub(totalSig, sigPts[p]), ref.E2.Sub(totalPk, pkPts[p])
+				switch kind {
+				case "identity":
+					sl[p], kl[p] = idSig, idPk
+				case "opposite-of-previous":
+					sl[p] = ref.EncodeG1(ref.E1.Neg(sigPts[src]))
+					kl[p] = skFromInt(ref.Fr.Neg(ks[src])).PublicKey()
+					wantSig, wantPk = ref.E1.Sub(wantSig, sigPts[src]), ref.E2.Sub(wantPk, pkPts[src])
+				default:
+					sl[p], kl[p] = sigs[src], pks[src] // the same objects a second time
+					wantSig, wantPk = ref.E1.Add(wantSig, sigPts[src]), ref.E2.Add(wantPk, pkPts[src])
+				}
+				rep := map[string]any{"list_size": M, "position": p, "kind": kind, "seed_label": "special-positions"}
+				var aSig crypto.Signature
+				var aPk crypto.PublicKey
+				var e1, e2 error
+				if run.Guard("aggregation(special element)", rep, func() {
+					aSig, e1 = crypto.AggregateBLSSignatures(sl)
+					aPk, e2 = crypto.AggregateBLSPublicKeys(kl)
+				}) {
+					return
+				}
+				run.Eval(2)
+				run.Count("special-positions.cases", 1)
+				if want := ref.EncodeG1(wantSig); e1 != nil || !bytes.Equal(aSig, want) {
+					run.Violate("C04:signature-sum:special-element:"+kind, fmt.Sprintf("AggregateBLSSignatures of %d signatures with %s at position %d = %x (err %v), reference %x", M, kind, p, []byte(aSig), e1, want), rep)
+				}
+				if want := ref.EncodeG2(wantPk, cv); e2 != nil || !bytes.Equal(pkEncOrNil(aPk), want) {
+					run.Violate("C04:public-sum:special-element:"+kind, fmt.Sprintf("AggregateBLSPublicKeys of %d keys with %s at position %d = %x (err %v), reference %x", M, kind, p, pkEncOrNil(aPk), e2, want), rep)
+				}
+			}
+			if p%32 == 0 {
+				run.Shape(fmt.Sprintf("special-position|%d", p))
+			}
+		}()
+	}
+	wg.Wait()
+	run.Require(run.Counter("special-positions.cases") >= int64(M), "special-element sweep incomplete")
 }
 
 func c04Corners(run *mon.Run, r *rand.Rand, cv ref.Conv) {
